@@ -103,6 +103,12 @@ class Contract:
         self.fresh_result_.append((label or f"fresh[{len(self.fresh_result_)}]", expr))
         return self
 
+    def use_at_call_sites(self, result=None, kinds=None):
+        """modular verification: callers are checked against this contract, not against the body.
+        `result` builds the (fresh, symbolic) return value; `kinds` gives scalar kinds of havoced fields."""
+        self.modular = dict(result=result, kinds=kinds or {})
+        return self
+
     def spec_functions(self):
         """python functions of the contract module usable in clauses (name -> source AST)"""
         out = {}
